@@ -691,6 +691,49 @@ theorem validator_detects_missing_s_duration (pre post : List SElem) (s : SElem)
       apply List.mem_append_right
       exact ih _
 
+/-- **MPD@timeShiftBufferDepth removed (live)** – reported at the MPD element (manifest.py) *and*
+at every Representation that needs the value to generate its segments (representation.py) -/
+theorem validator_detects_time_shift_buffer_depth (d : Doc) (hl : d.live = true) (h : d.hasTsbd = false) :
+    (MLoc.mpd, MErr.timeShiftBufferDepth) ∈ docErrors d ∧
+    (∀ t tt r, t = some tt → tt.hasInit = true → tt.hasMedia = true → d.hasAst = true →
+      MErr.repTsbd ∈ repAttrErrors d t r) := by
+  constructor
+  · unfold docErrors
+    apply List.mem_append_left
+    apply List.mem_map.mpr
+    refine ⟨MErr.timeShiftBufferDepth, ?_, rfl⟩
+    unfold mpdErrors
+    simp [hl, h]
+  · intro t tt r ht h1 h2 h3
+    unfold repAttrErrors
+    simp [ht, h1, h2, h3, hl, h]
+
+/-- **SegmentTemplate@initialization removed** – reported at every Representation using it -/
+theorem validator_detects_initialization (d : Doc) (tt : TemplateAttrs) (r : RepAttrs)
+    (h : tt.hasInit = false) : MErr.initialization ∈ repAttrErrors d (some tt) r := by
+  unfold repAttrErrors
+  simp [h]
+
+/-- **the whole table**: every manifest shape the server produces (live / static, `$Number$`
+template / `$Time$` timeline) is accepted as it is, and for every row of `mandatoryAttrs` that
+applies to the shape, removing that attribute yields the row's error at the row's location –
+checked row by row by the kernel -/
+theorem mandatory_table_detected :
+    ∀ live ∈ [true, false], ∀ timeline ∈ [true, false],
+      docErrors (canonicalDoc live timeline) = [] ∧
+      ∀ r ∈ mandatoryAttrs, r.appliesTo live timeline = true →
+        (r.mloc, r.err) ∈ docErrors (removeAttr r (canonicalDoc live timeline)) := by
+  decide
+
+/-- the table names every attribute-level error kind of the model that a missing attribute can
+cause in a live or a static manifest (no check of the model is left out of the enumeration) -/
+theorem mandatory_table_complete :
+    ∀ e ∈ [MErr.profiles, .minBufferTime, .mpdType, .availabilityStartTime, .timeShiftBufferDepth,
+           .durationMissing, .periodId, .adpMimeType, .repBandwidth, .repId, .initialization, .media,
+           .repAst, .repTsbd, .tmplDuration, .sDuration, .sStart],
+      ∃ r ∈ mandatoryAttrs, r.err = e := by
+  decide
+
 /-! ## 6. SegmentTimeline: the validator reads the server's timeline the way DASH does -/
 
 /-- the `<S>` list the server writes is expanded by the validator into exactly the slice
